@@ -389,6 +389,58 @@ def _rebuild_method(prog, mk):
     return {"params": params, "results": results}
 
 
+def _wfield(place):
+    """The split value's part a field place names: the field itself, or — when the wrapping parts are grouped in a helper struct embedded in
+    the split value (`splitted.wrapping.preceding`) — the helper's field, as the dissolved view names it."""
+    from engine import mir as _mir
+    p = place["p"]
+    if not p or not isinstance(p[0], dict):
+        return None
+    n0 = p[0].get("n")
+    d = _mir.DISSOLVE.get(n0)
+    if d and str(d.get("owner", "")).startswith(SPLIT_TY.rstrip("<")) and len(p) >= 2 and isinstance(p[1], dict) and p[1].get("n") in d["rename"]:
+        return d["rename"][p[1]["n"]]
+    return n0
+
+
+def part_writes(body):
+    """[(block, index, part name, rvalue)] — every assignment to a part of the by-value split value (local 1).  An assignment of the whole
+    embedded helper struct (`splitted.wrapping = Wrapping { preceding: a, trailing: b }`) counts as one assignment per helper field, each
+    with its own operand."""
+    from engine import mir as _mir
+    out = []
+    for (i, j, s) in body.stmts():
+        if not (s["k"] == "assign" and s["place"]["l"] == 1 and s["place"]["p"] and isinstance(s["place"]["p"][0], dict) and "f" in s["place"]["p"][0]):
+            continue
+        n0 = s["place"]["p"][0].get("n")
+        d = _mir.DISSOLVE.get(n0)
+        if d and str(d.get("owner", "")).startswith(SPLIT_TY) and len(s["place"]["p"]) == 1:
+            rv = s["rv"]
+            src = None
+            if rv["k"] == "aggregate" and rv.get("agg") == "adt" and rv.get("adt") == d["helper"]:
+                src = rv
+            else:
+                cur = rv
+                for _hop in range(5):
+                    if not (cur["k"] == "use" and cur["op"]["k"] in ("move", "copy") and not cur["op"]["place"]["p"]):
+                        break
+                    defs = body.defs.get(cur["op"]["place"]["l"], [])
+                    if len(defs) != 1 or defs[0][2] != "assign" or defs[0][3]["place"]["p"]:
+                        break
+                    cur = defs[0][3]["rv"]
+                    if cur["k"] == "aggregate" and cur.get("agg") == "adt" and cur.get("adt") == d["helper"]:
+                        src = cur
+                        break
+            if src is not None and len(src.get("fields") or []) == len(src["ops"]):
+                for fn_, op_ in zip(src["fields"], src["ops"]):
+                    out.append((i, j, d["rename"].get(fn_, fn_), {"k": "use", "op": op_}))
+                continue
+            out.append((i, j, n0, s["rv"]))
+            continue
+        out.append((i, j, _wfield(s["place"]), s["rv"]))
+    return out
+
+
 def split_fn(prog):
     hits = [k for k, f in prog.fns.items() if (f.get("impl") or {}).get("self", "").startswith(SPLIT_TY)
             and f.get("inputs") == ["&str", "bool"]]
@@ -437,10 +489,8 @@ def run(ctx):
                   "straight quotes directly before a non-empty word become opening, those after it closing curly quotes; nothing else changes")
     # field writes on the by-value parameter
     wblocks = {}
-    for (i, j, s) in qb.stmts():
-        if s["k"] == "assign" and s["place"]["l"] == 1 and s["place"]["p"] and "f" in (s["place"]["p"][0] if isinstance(s["place"]["p"][0], dict) else {}):
-            fname = s["place"]["p"][0].get("n")
-            wblocks.setdefault(fname, set()).add(i)
+    for (i, j, fname, rv_) in part_writes(qb):
+        wblocks.setdefault(fname, set()).add(i)
     map_form = None
     if not wblocks:
         # the two parts rebuilt through the split value's own rebuilding method: `splitted.map(|preceding, trailing| (.., ..))`
@@ -552,11 +602,9 @@ def run(ctx):
         # which field receives the built string
         field = None
         if dest is not None and dest_local is not None:
-            for fname, blks in wblocks.items():
-                for (i, j, st) in qb.stmts():
-                    if i in blks and st["k"] == "assign" and st["place"]["l"] == 1 and st["place"]["p"][0].get("n") == fname:
-                        if dest_local in _moved_locals(qb, st["rv"]):
-                            field = fname
+            for (i, j, fname, rv_) in part_writes(qb):
+                if dest_local in _moved_locals(qb, rv_):
+                    field = fname
         maps[s] = (it_src, field, table, okshape)
     # the same per-character map written as  part.extend(source.chars().map(|ch| …))
     from engine.analyses import PredEval
@@ -591,11 +639,9 @@ def run(ctx):
         dest_local = _ref_target_local(qb, t_["args"][0])
         field = None
         if dest_local is not None:
-            for fname, blks in wblocks.items():
-                for (i, j, st) in qb.stmts():
-                    if i in blks and st["k"] == "assign" and st["place"]["l"] == 1 and st["place"]["p"][0].get("n") == fname:
-                        if dest_local in _moved_locals(qb, st["rv"]):
-                            field = fname
+            for (i, j, fname, rv_) in part_writes(qb):
+                if dest_local in _moved_locals(qb, rv_):
+                    field = fname
         maps[bb_] = (_chars_source(qb, mp_.a[1][0], acc), field, table, okshape)
     # the same two maps made by one private helper called once per part (`curve(part, '‘', '“')`), handed over directly or through the
     # split value's rebuilding method
@@ -627,11 +673,10 @@ def run(ctx):
         for fname in sorted(wblocks):
             if fname in have_:
                 continue
-            for (i, j, st) in qb0.stmts():
-                if not (st["k"] == "assign" and st["place"]["l"] == 1 and st["place"]["p"] and isinstance(st["place"]["p"][0], dict)
-                        and st["place"]["p"][0].get("n") == fname):
+            for (i, j, fname_, rv_) in part_writes(qb0):
+                if fname_ != fname:
                     continue
-                for l_ in sorted(_moved_locals(qb0, st["rv"])):
+                for l_ in sorted(_moved_locals(qb0, rv_)):
                     for d_ in qb0.defs.get(l_, []):
                         if d_[2] != "call":
                             continue
